@@ -537,7 +537,7 @@ func TestCheck(t *testing.T) {
 		"schemas containing `extend` are passed through the repository's own Schema.Normalize() before the engine / generator see them (the engine does not understand un-normalized extensions anywhere, e.g. operation validation rejects fields defined in an extension); the un-normalized form is not judged",
 		"not judged (outside the property's list, counted under nj_*): description texts, specifiedByURL, the schema description, whitespace-only differences of a deprecation reason, order of list members, null versus [] for lists that do not apply to a kind, presence of introspection types (__Type ...) in __schema.types, presence of unreferenced built-in scalars, the engine's own directives @defer and @oneOf; built-in directives @skip/@include/@deprecated/@specifiedBy are compared with the signatures fixed by the specification",
 		"a clause-2 / clause-3 difference that is literally the same difference already reported under clause 1 for the same schema is attributed to clause 1 only",
-		"clause 3 operations per schema (6): the full introspection query (TypeRef 7 levels) with includeDeprecated true everywhere / false-or-omitted everywhere; __type(name: \"T\") with the full type selection (TypeRef 5 levels), includeDeprecated true, for every user type; __type(name: \"T\") member name lists with includeDeprecated false for every user type (complete attributes under false are judged by the full query) plus the five built-in scalars and an unknown name; the member name lists with every type name and includeDeprecated given as operation variables, both values",
+		"clause 3 operations per schema (6 planned + the history sequence): the full introspection query (TypeRef 7 levels) with includeDeprecated true everywhere / false-or-omitted everywhere; __type(name: \"T\") with the full type selection (TypeRef 5 levels), includeDeprecated true, for every user type; __type(name: \"T\") member name lists with includeDeprecated false for every user type (complete attributes under false are judged by the full query) plus the five built-in scalars and an unknown name; the member name lists with every type name and includeDeprecated given as operation variables, both values; history independence: on the same engine one fixed-shape __type(name:) operation for every user type name, String and an unknown name, ascending then descending with a __schema operation in between, once with inline literal names and once with the name as a variable (4*types+10 small operations, all but the first of each form served from the plan cache), each answer compared with the reference for that name",
 	)
 	run.Bound("max_user_types_clause12_single", maxSingle)
 	run.Bound("max_user_types_clause3_single", maxSingleEng)
